@@ -24,7 +24,7 @@ RULE = (
     "or a component that is not a clique; distinct = distinct (sequence, pair set)."
 )
 ASSUMPTIONS = [
-    "components above 8 stems are not generated (the implementation is factorial in component size)",
+    "components above 8 (quick) / 9 (thorough) stems are not generated (the implementation is factorial in component size)",
     "trusted: the colouring enumerator in rnaverif/ssref.py",
 ]
 
@@ -204,6 +204,11 @@ def plan(tier, seed):
     for idx, (n, m) in enumerate(hyp):
         specs.append({"kind": "blowup", "examples": n, "max_abstract": m, "maxcomp": maxcomp, "seed": seed * 1000 + idx})
     specs.append({"kind": "shaped", "examples": shaped_n, "maxcomp": maxcomp, "seed": seed * 1000 + 99})
+    # groups at and around every size a size-limited enumeration might special-case: chains and stars of 7, 8 (and,
+    # thorough, 9) stems, with and without an independent H-type knot next to them
+    for k in ([7, 8] if tier == "quick" else [7, 8, 9]):
+        for shape in ("path", "star"):
+            specs.append({"kind": "big-group", "k": k, "shape": shape})
     for k in range(4 if tier == "quick" else 16):
         specs.append({"kind": "mapped", "examples": 60 if tier == "quick" else 500, "seed": seed * 1000 + 300 + k})
     return specs
@@ -249,6 +254,20 @@ def run_shard(spec) -> ShardResult:
         strat = ssref.st_structures(max_abstract=spec["max_abstract"], min_abstract=2, max_stem=3).filter(_small(spec["maxcomp"]))
         run_hypothesis(PROP_ID, strat, oracle, seed=spec["seed"], max_examples=spec["examples"], result=res,
                        to_json=tj, classify=classify)
+        res.exhaustive = False
+    elif kind == "big-group":
+        k = spec["k"]
+        for lens, extra in (([1] * k, False), ([1 + (t % 2) for t in range(k)], True)):
+            seq, pairs = shaped(spec["shape"], k, lens)
+            if extra:
+                # an independent H-type pseudoknot appended after the group
+                n = len(seq)
+                pairs = tuple(sorted(list(pairs) + [(n + 1, n + 5), (n + 3, n + 7)]))
+                seq = ssref.seq_for(n + 7, k)
+            case = (seq, pairs)
+            nt, labs = classify(case)
+            res.note_case(tj(case), nt, labs + [f"group-of-{k}-stems"], sample_cap=1)
+            check_case(PROP_ID, oracle, case, res, to_json=tj)
         res.exhaustive = False
     elif kind == "mapped":
         from rnaverif import corpus
